@@ -15,6 +15,7 @@ import Gv.Proofs.PhylipNoHang
 import Gv.Proofs.ClustalPos
 import Gv.Proofs.PartitionOutcome
 import Gv.Proofs.PhylipHeader
+import Gv.Proofs.NexusHeader
 /-!
 C03 — parsers terminate on every input with an error or a well-formed result.
 
@@ -733,5 +734,80 @@ example : Spec.Fmt.declaredPhylip [32, 50, 32, 51, 10, 97, 32, 65, 67, 71, 10, 9
 /-- blanks, then NUL, then anything: the end-of-stream marker; ` \n x`: an error, not the marker -/
 example : Phylip.parse false {} [32, 10, 0, 65] = .ok none ∧ Spec.Fmt.blankToNul [32, 10, 0, 65] = true := by decide
 example : Phylip.parse false {} [32, 10, 32, 120] = .error := by decide
+
+/-! ## Nexus: a success agrees with the counts of the DIMENSIONS commands and with the TAXA block -/
+
+/-- **Nexus, counts as the parser read them** (every combination of the repairs, ALL byte strings and options): a
+successful parse went through the top-level loop with a DATA / CHARACTERS block `d`, and
+* when `ntax` was declared (≠ −1, the "not declared" value) the matrix holds exactly `ntax` distinct names, and the
+  alignment has that many rows — at most that many under a duplicate policy that drops rows;
+* when `nchar` was declared the alignment has exactly `nchar` columns;
+* with a TAXA block there is one row per label, and the `ntax` of that block (if declared) is the number of labels. -/
+theorem nexus_counts_as_read (f : Nexus.Facts) (o : POpts) (bs : List Byte) (a : Aln)
+    (h : Nexus.parse f o bs = .ok a) :
+    ∃ top d, Nexus.topLoop f ((Nexus.sIW bs).2.length + 3) (Nexus.sIW bs).2 {} = .ok top ∧ top.data = some d ∧
+      (d.ntax ≠ -1 → Spec.Fmt.rowsOk (normIgnore o.ignore != 0) (a.rows.length : Int) d.ntax = true) ∧
+      (d.nchar ≠ -1 → a.length = d.nchar) ∧
+      (∀ ls, top.taxlabels = some ls →
+        a.rows.length = ls.length ∧ (top.taxantax = -1 ∨ top.taxantax = (ls.length : Int))) := by
+  obtain ⟨top, _, htop, hb⟩ := Gv.Proofs.NexusHeader.parse_inv f o bs a h
+  obtain ⟨d, hag⟩ := Gv.Proofs.NexusHeader.build_agrees f o top a hb
+  refine ⟨top, d, htop, hag.data, ?_, hag.nchar, hag.taxa⟩
+  intro hn
+  have hm := hag.matrix_ntax hn
+  unfold Spec.Fmt.rowsOk
+  by_cases hi : normIgnore o.ignore = 0
+  · have := hag.rows_eq hi
+    simp [hi]; omega
+  · have hi' : (normIgnore o.ignore != 0) = true := by simpa using hi
+    have := hag.rows_le
+    simp [hi']; omega
+
+/-- **Nexus, consistency with the counts a naive scanner declares — partial**: MISSING is the agreement of the two
+readings of the header, i.e. that the `ntax` / `nchar` the parser's DIMENSIONS loop ends with are the ones the
+independent scanner `Spec.Fmt.declaredNexus` (comments stripped, commands split at `;`, `key = value` inside the
+DATA / CHARACTERS block) reads off the raw bytes, and are not the "undeclared" value −1 (hypothesis `hread`; it is
+checked on the implementation's results by the oracle predicate on every run, not proved: the parser tokenises, the
+scanner works on text).  Given it, the oracle's `contradicts-header-ntax` / `-nchar` clauses hold for every success. -/
+theorem nexus_header_consistent_partial (f : Nexus.Facts) (o : POpts) (bs : List Byte) (a : Aln)
+    (h : Nexus.parse f o bs = .ok a)
+    (hread : ∀ top d, Nexus.topLoop f ((Nexus.sIW bs).2.length + 3) (Nexus.sIW bs).2 {} = .ok top → top.data = some d →
+      (∀ dn, (Spec.Fmt.declaredNexus bs).1 = some dn → d.ntax = dn ∧ dn ≠ -1) ∧
+      (∀ dl, (Spec.Fmt.declaredNexus bs).2 = some dl → d.nchar = dl ∧ dl ≠ -1)) :
+    (match (Spec.Fmt.declaredNexus bs).1 with
+     | some dn => Spec.Fmt.rowsOk (normIgnore o.ignore != 0) (a.rows.length : Int) dn = true
+     | none => True) ∧
+    (match (Spec.Fmt.declaredNexus bs).2 with
+     | some dl => a.length = dl
+     | none => True) := by
+  obtain ⟨top, d, htop, hd, h1, h2, _⟩ := nexus_counts_as_read f o bs a h
+  obtain ⟨r1, r2⟩ := hread top d htop hd
+  constructor
+  · cases hdn : (Spec.Fmt.declaredNexus bs).1 with
+    | none => trivial
+    | some dn =>
+      obtain ⟨e, hne⟩ := r1 dn hdn
+      simp only
+      rw [← e]
+      exact h1 (by rw [e]; exact hne)
+  · cases hdl : (Spec.Fmt.declaredNexus bs).2 with
+    | none => trivial
+    | some dl =>
+      obtain ⟨e, hne⟩ := r2 dl hdl
+      simp only
+      rw [← e]
+      exact h2 (by rw [e]; exact hne)
+
+/-- non-vacuity: `#NEXUS begin data; dimensions ntax=2 nchar=3; format datatype=dna; matrix a ACG / b A-T ; end;` -/
+def nexusSample : List Byte := [35, 78, 69, 88, 85, 83, 10, 98, 101, 103, 105, 110, 32, 100, 97, 116, 97, 59, 10, 100, 105, 109, 101, 110, 115, 105, 111, 110, 115, 32, 110, 116, 97, 120, 61, 50, 32, 110, 99, 104, 97, 114, 61, 51, 59, 10, 102, 111, 114, 109, 97, 116, 32, 100, 97, 116, 97, 116, 121, 112, 101, 61, 100, 110, 97, 59, 10, 109, 97, 116, 114, 105, 120, 10, 97, 32, 65, 67, 71, 10, 98, 32, 65, 45, 84, 10, 59, 10, 101, 110, 100, 59, 10]
+
+set_option maxRecDepth 100000 in
+example : Nexus.parse ⟨true, true, true, true⟩ {} nexusSample = .ok ⟨1, 3, [([97], [65, 67, 71]), ([98], [65, 45, 84])]⟩ ∧
+    Spec.Fmt.declaredNexus nexusSample = (some 2, some 3) := by decide
+-- the reading hypothesis of `nexus_header_consistent_partial` holds on it: the DIMENSIONS loop ends with (2, 3)
+set_option maxRecDepth 100000 in
+example : (match Nexus.topLoop ⟨true, true, true, true⟩ ((Nexus.sIW nexusSample).2.length + 3) (Nexus.sIW nexusSample).2 {} with
+    | .ok top => top.data.map fun d => (d.ntax, d.nchar)
+    | _ => none) = some (2, 3) := by decide
 
 end Gv.Props.C03
